@@ -97,3 +97,16 @@ Definition demo_tuple_pre : list stmt :=
   [STuple [w_a; w_b] [EInt 1; EFloat (5 # 2)];
    STuple [w_a; w_x] [EBin Add (EName w_a) (EInt 1); EBin Mult (EName w_b) (EInt 2)];
    SWhile (blk [STuple [w_b; w_x] [EName w_x; EName w_b]])].
+
+(* def ident(p): return p
+   def twice(p): return ident(p) + ident(p)        a helper calling an earlier helper
+   x = 2.5 ; a = twice(x) ; b = twice(3) *)
+Definition n_ident : ident := [105;100].
+Definition n_twice : ident := [116;119].
+Definition hh_prog : list item :=
+  [IDef n_ident (mk_fsrc [(w_p, None)] None (blk [SReturn (Some (EName w_p))]));
+   IDef n_twice (mk_fsrc [(w_p, None)] None
+     (blk [SReturn (Some (EBin Add (ECall n_ident [EName w_p] []) (ECall n_ident [EName w_p] [])))]));
+   IStmt (SAssign w_x (EFloat (5 # 2)));
+   IStmt (SAssign w_a (ECall n_twice [EName w_x] []));
+   IStmt (SAssign w_b (ECall n_twice [EInt 3] []))].
